@@ -114,7 +114,7 @@ func (p *c11r) ownClients(x *res, idx int, ctx *runner.Ctx) {
 		xi.r.Evals += 150
 	})
 	if !ok {
-		x.viol("deadlock", "own-clients", fmt.Sprintf("%d goroutines with their own clients did not finish", goroutines), nil)
+		x.notFinished("own-clients", fmt.Sprintf("%d goroutines with their own clients did not finish", goroutines), nil)
 		return
 	}
 	for _, xi := range results {
@@ -215,10 +215,8 @@ func (p *c11r) RunCase(ctx *runner.Ctx) runner.CaseResult {
 		}(g)
 	}
 	go func() { wg.Wait(); close(done) }()
-	select {
-	case <-done:
-	case <-time.After(120 * time.Second):
-		x.viol("deadlock", "race-workload", fmt.Sprintf("[%s] %d goroutines did not finish their mixed workload within 120 s", adapter, goroutines), map[string]interface{}{"adapter": adapter, "goroutines": goroutines})
+	if lastParallel = awaitOrDiagnose(done); lastParallel != "ok" {
+		x.notFinished("race-workload", fmt.Sprintf("[%s] %d goroutines did not finish their mixed workload", adapter, goroutines), map[string]interface{}{"adapter": adapter, "goroutines": goroutines})
 	}
 	x.r.Evals += goroutines * opsPer
 	x.r.Counters["race_workload_ops"] += goroutines * opsPer
@@ -259,12 +257,60 @@ func parallel(n int, f func(i int)) bool {
 	close(start)
 	done := make(chan struct{})
 	go func() { wg.Wait(); close(done) }()
-	select {
-	case <-done:
-		return true
-	case <-time.After(60 * time.Second):
-		return false
+	lastParallel = awaitOrDiagnose(done)
+	return lastParallel == "ok"
+}
+
+// lastParallel is the verdict of the most recent parallel() / awaitOrDiagnose call of this worker: "ok",
+// "deadlock" (diagnosed from goroutine dumps, never from elapsed time) or "inconclusive".
+var lastParallel = "ok"
+var deadlocksDiagnosed = 0
+
+// awaitOrDiagnose waits for the workload. No wall-clock value decides a verdict: every 10 s all goroutine
+// stacks are inspected, and only when three consecutive inspections (30 s apart in total) find every goroutine
+// that is inside the library parked on a lock - nobody running, runnable or sleeping in it - is the run called a
+// deadlock. A workload that is merely slow (loaded machine) keeps being waited for; after 20 minutes the case
+// is given up as inconclusive.
+func awaitOrDiagnose(done <-chan struct{}) string {
+	start := time.Now()
+	streak := 0
+	for {
+		// the inspection interval only decides how soon a deadlock is noticed, never whether there is one; once
+		// this worker process has diagnosed one, later workloads are inspected more often
+		every := 10 * time.Second
+		if deadlocksDiagnosed > 0 {
+			every = 2 * time.Second
+		}
+		select {
+		case <-done:
+			return "ok"
+		case <-time.After(every):
+		}
+		buf := make([]byte, 8<<20)
+		n := runtime.Stack(buf, true)
+		if runner.AllMinidynGoroutinesBlocked(string(buf[:n])) {
+			streak++
+		} else {
+			streak = 0
+		}
+		if streak >= 3 {
+			deadlocksDiagnosed++
+			return "deadlock"
+		}
+		if time.Since(start) > 20*time.Minute {
+			return "inconclusive"
+		}
 	}
+}
+
+// notFinished files the outcome of a parallel() call that did not return "ok".
+func (x *res) notFinished(feature, detail string, wit interface{}) {
+	if lastParallel == "deadlock" {
+		x.viol("deadlock", feature, detail+" (every goroutine inside the library is parked on a lock in three consecutive stack inspections)", wit)
+		return
+	}
+	x.r.Inconclusive++
+	x.r.Counters["workload_given_up_inconclusive"]++
 }
 
 func (p *c11) conservation(x *res, ctx *runner.Ctx) {
@@ -288,7 +334,7 @@ func (p *c11) conservation(x *res, ctx *runner.Ctx) {
 				}
 			}
 		}) {
-			x.viol("deadlock", kind, fmt.Sprintf("[%s] %d concurrent ADD updates did not return", adapter, n), wit)
+			x.notFinished(kind, fmt.Sprintf("[%s] %d concurrent ADD updates did not return", adapter, n), wit)
 			return
 		}
 		x.r.Evals += n * 5
@@ -315,7 +361,7 @@ func (p *c11) conservation(x *res, ctx *runner.Ctx) {
 				atomic.AddInt64(&failc, 1)
 			}
 		}) {
-			x.viol("deadlock", kind, fmt.Sprintf("[%s] %d racing conditional puts did not return", adapter, n), wit)
+			x.notFinished(kind, fmt.Sprintf("[%s] %d racing conditional puts did not return", adapter, n), wit)
 			return
 		}
 		x.r.Evals += n
@@ -335,7 +381,7 @@ func (p *c11) conservation(x *res, ctx *runner.Ctx) {
 				atomic.AddInt64(&inuse, 1)
 			}
 		}) {
-			x.viol("deadlock", kind, fmt.Sprintf("[%s] %d racing CreateTable did not return", adapter, n), wit)
+			x.notFinished(kind, fmt.Sprintf("[%s] %d racing CreateTable did not return", adapter, n), wit)
 			return
 		}
 		x.r.Evals += n
@@ -357,7 +403,7 @@ func (p *c11) conservation(x *res, ctx *runner.Ctx) {
 				}
 			}
 		}) {
-			x.viol("deadlock", kind, fmt.Sprintf("[%s] create/delete ping-pong did not return", adapter), wit)
+			x.notFinished(kind, fmt.Sprintf("[%s] create/delete ping-pong did not return", adapter), wit)
 			return
 		}
 		x.r.Evals += n * 10
@@ -368,7 +414,9 @@ func (p *c11) conservation(x *res, ctx *runner.Ctx) {
 		}
 	case "batch-vs-scan":
 		cl, _, _ := freshClient(adapter, spec)
-		k := 6
+		// batch sizes on both sides of 16 (and the maximum of 25): a batch call is one atomic step whatever its size
+		k := []int{6, 17, 25, 13}[(ctx.Case/12)%4]
+		x.set("batch_sizes", fmt.Sprint(k))
 		var torn int64
 		var tornDetail atomic.Value
 		writers := n / 2
@@ -404,7 +452,7 @@ func (p *c11) conservation(x *res, ctx *runner.Ctx) {
 				}
 			}
 		}) {
-			x.viol("deadlock", kind, fmt.Sprintf("[%s] batches vs scans did not return", adapter), wit)
+			x.notFinished(kind, fmt.Sprintf("[%s] batches vs scans did not return", adapter), wit)
 			return
 		}
 		x.r.Evals += n * 9
@@ -418,7 +466,8 @@ func (p *c11) conservation(x *res, ctx *runner.Ctx) {
 		// none unprocessed, or none applied (all k unprocessed under internal-server failure, an error under
 		// the forced / deprecated one); applied + unprocessed = k in every case.
 		cl, _, _ := freshClient(adapter, spec)
-		k := 12
+		k := []int{12, 17, 25, 20}[(ctx.Case/12)%4]
+		x.set("batch_sizes", fmt.Sprint(k))
 		for j := 0; j < k; j++ {
 			cl.Do(adapt.Op{Kind: adapt.OpPut, Table: spec.Name, Item: val.Item{"h": val.Str(fmt.Sprintf("stored-%d", j)), "g": val.Str("x")}})
 		}
@@ -478,7 +527,7 @@ func (p *c11) conservation(x *res, ctx *runner.Ctx) {
 				runtime.Gosched()
 			}
 		}) {
-			x.viol("deadlock", kind, fmt.Sprintf("[%s] batches vs failure toggles did not return", adapter), wit)
+			x.notFinished(kind, fmt.Sprintf("[%s] batches vs failure toggles did not return", adapter), wit)
 			return
 		}
 		cl.Do(adapt.Op{Kind: adapt.OpEmulate, Fail: "none"})
@@ -592,7 +641,11 @@ func linOp(r *rand.Rand, profile string, proc, seq int) adapt.Op {
 		switch r.Intn(4) {
 		case 0, 1:
 			b := []adapt.BatchEntry{}
-			for j := 0; j < 3; j++ {
+			nb := 3
+			if r.Intn(3) == 0 {
+				nb = 17 + r.Intn(9) // a large batch is one atomic step, too
+			}
+			for j := 0; j < nb; j++ {
 				b = append(b, adapt.BatchEntry{Table: t, Put: val.Item{"h": val.Str(fmt.Sprintf("b%d", j)), "u": uniq, "g": val.Str("x")}})
 			}
 			if r.Intn(2) == 0 {
@@ -667,7 +720,7 @@ func (p *c11) linearizability(x *res, ctx *runner.Ctx) {
 	x.r.Counters["lin_histories"]++
 	wit := map[string]interface{}{"adapter": adapter, "profile": profile, "plans": plans}
 	if !finished {
-		x.viol("deadlock", profile, fmt.Sprintf("[%s] profile %s: calls did not return within 60 s", adapter, profile), wit)
+		x.notFinished(profile, fmt.Sprintf("[%s] profile %s: calls did not return within 60 s", adapter, profile), wit)
 		return
 	}
 	// overlap statistics + event-order fingerprint
